@@ -140,6 +140,13 @@ func c08ValidateDominates(c *Ctx, rule string) {
 			// Validate must be applied to the value that is written
 			// (through locals: `str := val.(string)` … uint32(len(str)), or a byte chosen by `if val.(bool)`)
 			written := f.provenanceText(valueArg[wr])
+			// a constant chosen by a test of the value (`if val.(bool) { write(1) } else { write(0) }`) comes from it
+			ast.Inspect(sw, func(y ast.Node) bool {
+				if ifs, ok := y.(*ast.IfStmt); ok && ifs.Pos() <= wr.Pos() && wr.End() <= ifs.End() {
+					written += " " + f.provenanceText(ifs.Cond)
+				}
+				return true
+			})
 			sameVal := len(v.Args) == 1 && strings.Contains(written, exprKey(v.Args[0]))
 			if !viaErr && sameVal {
 				ok = true
@@ -215,13 +222,32 @@ func c08IntRange(c *Ctx, rule string) {
 		return true
 	})
 	key := f.Name + "|int32-interval"
-	if arm == nil {
+	// the INT arm may also be written `if f.DataType == TypeInt { … }`
+	var armBody []ast.Stmt
+	var armPos token.Pos
+	if arm != nil {
+		armBody, armPos = arm.Body, arm.Pos()
+	} else {
+		inspectBody(f.Decl.Body, func(x ast.Node) bool {
+			if ifs, ok := x.(*ast.IfStmt); ok && armBody == nil {
+				if be, ok := ast.Unparen(ifs.Cond).(*ast.BinaryExpr); ok && be.Op == token.EQL {
+					for _, side := range []ast.Expr{be.X, be.Y} {
+						if cst := f.namedConst(side); cst != nil && cst.Name() == "TypeInt" {
+							armBody, armPos = ifs.Body.List, ifs.Pos()
+						}
+					}
+				}
+			}
+			return true
+		})
+	}
+	if armBody == nil {
 		c.Fail(rule, key, f.Decl.Pos(), "Validate has no TypeInt arm")
 		return
 	}
 	var lo, hi constant.Value
 	found := false
-	for _, st := range arm.Body {
+	for _, st := range armBody {
 		ifs, ok := st.(*ast.IfStmt)
 		if !ok {
 			continue
@@ -250,11 +276,11 @@ func c08IntRange(c *Ctx, rule string) {
 	wantLo, wantHi := constant.MakeInt64(-2147483648), constant.MakeInt64(2147483647)
 	switch {
 	case !found:
-		c.Fail(rule, key, arm.Pos(), "no range check returning ErrIntOutOfRange in the INT arm: values outside 32 bits are truncated by int32()")
+		c.Fail(rule, key, armPos, "no range check returning ErrIntOutOfRange in the INT arm: values outside 32 bits are truncated by int32()")
 	case lo == nil || hi == nil || !constant.Compare(lo, token.EQL, wantLo) || !constant.Compare(hi, token.EQL, wantHi):
-		c.Fail(rule, key, arm.Pos(), "the INT arm accepts [%v, %v], not [-2147483648, 2147483647]: a boundary value is refused or an out-of-range value is stored truncated", lo, hi)
+		c.Fail(rule, key, armPos, "the INT arm accepts [%v, %v], not [-2147483648, 2147483647]: a boundary value is refused or an out-of-range value is stored truncated", lo, hi)
 	default:
-		c.OK(rule, key, arm.Pos(), 2, "accepted interval is exactly [MinInt32, MaxInt32]")
+		c.OK(rule, key, armPos, 2, "accepted interval is exactly [MinInt32, MaxInt32]")
 	}
 	// the type test precedes the range test in each arm (Kind check)
 	kinds := map[string]string{"TypeInt": "Int64", "TypeBigInt": "Int64", "TypeVarchar": "String", "TypeBoolean": "Bool"}
